@@ -1,0 +1,26 @@
+//go:build verif
+
+package wallet
+
+// Contracts for property C04 in package wallet (comment only).
+//
+// InitAccounts(scope, watchOnly, num): when the caller asks for the migration to watch-only mode,
+// success means that waddrmgr.(*Manager).ConvertToWatchingOnly ran AND succeeded inside the one
+// database transaction (it is what deletes every private key from the database, C04 "after conversion
+// to watching-only ... no call returns private material"). convertedOk counts the calls of
+// ConvertToWatchingOnly that returned nil (instrumentation, nothing assumed about the callee).
+//@ okcounter convertedOk github.com/btcsuite/btcwallet/waddrmgr::(*Manager).ConvertToWatchingOnly
+//@ func (*Wallet).InitAccounts$1(tx) (err)
+//@   property C04
+//@   opt callthrough
+//@   requires wf: w != nil && w.Manager != nil && scope != nil
+//@   invariant 1 not_converted_yet: convertedOk == old(convertedOk)
+//@   ensures converts_when_asked: err == nil && watchOnly ==> convertedOk == old(convertedOk) + 1
+//@   ensures only_when_asked: !watchOnly ==> convertedOk == old(convertedOk)
+//@   ensures at_most_once: old(convertedOk) <= convertedOk && convertedOk <= old(convertedOk) + 1
+// Preconditions: assumptions about the caller (lnd's wallet set-up): an opened wallet and a fetched scope manager.
+//@ func (*Wallet).InitAccounts(w, scope, watchOnly, num) (err)
+//@   property C04
+//@   requires wf: w != nil && w.Manager != nil && scope != nil && w.db != nil
+//@   ensures converts_when_asked: err == nil && watchOnly ==> convertedOk == old(convertedOk) + 1
+//@   ensures only_when_asked: !watchOnly ==> convertedOk == old(convertedOk)
